@@ -413,10 +413,62 @@ def check_shared(case):
     return {"nontrivial": True, "labels": [case["gc"]], "sample": src[:200]}
 
 
+# (6) an imported file is one delayed expression too, whichever file imports it and however the path is spelled
+IMP_DIRS = [".", "a", "b", "a/deep", "common"]
+
+
+@st.composite
+def import_once_case(draw):
+    k = draw(st.integers(2, 5))
+    return {"importers": [[draw(st.integers(0, len(IMP_DIRS) - 1)), draw(st.integers(0, 3))] for _ in range(k)], "target_dir": draw(st.integers(0, len(IMP_DIRS) - 1)),
+            "kind": draw(st.sampled_from(["import", "import", "importstr"]))}
+
+
+def check_import_once(case):
+    import os
+    import tempfile
+    from ..engine import run_cli
+    with tempfile.TemporaryDirectory(prefix="c04i-") as root:
+        root = os.path.realpath(root)
+        for d in IMP_DIRS:
+            os.makedirs(os.path.join(root, d), exist_ok=True)
+        target = os.path.normpath(os.path.join(root, IMP_DIRS[case["target_dir"]], "shared.libsonnet"))
+        with open(target, "w") as f:
+            f.write("std.trace('SHARED-EVALUATED', {v: 1})")
+        items = []
+        for n, (di, how) in enumerate(case["importers"]):
+            d = os.path.normpath(os.path.join(root, IMP_DIRS[di]))
+            rel = os.path.relpath(target, d)
+            if how == 1:
+                rel = "./" + rel
+            elif how == 2 and d != root:
+                rel = os.path.join("..", os.path.basename(d), rel)
+            elif how == 3:
+                rel = target
+            name = f"imp{n}.libsonnet"
+            with open(os.path.join(d, name), "w") as f:
+                f.write("(import '%s').v" % rel)
+            items.append("import '%s'" % os.path.relpath(os.path.join(d, name), root))
+        main = "[" + ", ".join(items) + "]"
+        with open(os.path.join(root, "main.jsonnet"), "w") as f:
+            f.write(main)
+        rc, out, err = run_cli(["main.jsonnet"], cwd=root)
+        text = err.decode("utf-8", "replace")
+        what = f"{len(items)} importers {case['importers']} of {os.path.relpath(target, root)}"
+        if rc != 0:
+            raise Violation("import-once-failed", f"{what}: exit {rc}: {text[-300:]}")
+        import re
+        n = len(re.findall(r"TRACE: SHARED-EVALUATED", re.sub(r"\x1b\[[0-9;]*m", "", text)))
+        if n != 1:
+            raise Violation("evaluated-not-once:import", f"a file imported by {what} was evaluated {n} times (expected once)")
+    return {"nontrivial": len({tuple(x) for x in case["importers"]}) >= 2, "labels": [f"k={len(items)}"], "sample": what}
+
+
 CHECKS = [
     Check("dead_code", check_dead, dead_case, quick=300, thorough=10000),
     Check("rewrites", check_rewrite, rewrite_case, quick=300, thorough=10000),
     Check("at_most_once", check_once, once_case, quick=150, thorough=3000),
     Check("lazy_containers", check_lazy, lazy_case, quick=400, thorough=12000),
     Check("once_through_derived_containers", check_shared, enumerate_fn=enum_shared, exhaustive=True),
+    Check("imported_file_evaluated_once", check_import_once, import_once_case, quick=20, thorough=600),
 ]
